@@ -419,6 +419,64 @@ func vCheckLines(msgs []outputstream.Message) string {
 }
 
 // vRunHistory executes one history on all replicas and appends records to w.
+// vDetOnly: the history is outside the scope of the state predicates (e.g. SVSNICK onto a taken nickname); only the
+// real-path replicas are run and compared, and the records (kind "det") carry nothing but that verdict.
+var vDetOnly bool
+
+func vRunDetHistory(t *testing.T, h int, next func(step int, st map[string]interface{}) *vEntry, k int, tmp string, w *bufio.Writer) {
+	enc := json.NewEncoder(w)
+	var reals []*vReplica
+	base := time.Unix(1500000000, 0)
+	for j := 0; j < k; j++ {
+		r, err := vNewReal(tmp, base.Add(time.Duration(j)*time.Hour))
+		if err != nil {
+			t.Fatalf("NewOutputStream: %v", err)
+		}
+		defer r.close()
+		reals = append(reals, r)
+	}
+	enc.Encode(&vRecord{K: "reset", H: h, Post: reals[0].srv.VerifProject(), Out: []vReply{}, Lookup: [][]interface{}{}})
+	for idx := 0; ; idx++ {
+		e := next(idx+1, reals[0].srv.VerifProject())
+		if e == nil {
+			return
+		}
+		e.fill()
+		rec := &vRecord{K: "det", H: h, I: idx + 1, E: e, Post: map[string]interface{}{}, Out: []vReply{}, Lookup: [][]interface{}{}}
+		msgs, p := reals[0].apply(e)
+		if p != "" {
+			// a panic outside the scope of C06 ends the history; replicas that do not panic alike disagree
+			for j := 1; j < len(reals); j++ {
+				if _, p2 := reals[j].apply(e); p2 == "" {
+					rec.Det = fmt.Sprintf("replica 1 panicked (%s), replica %d did not", p, j+1)
+				}
+			}
+			enc.Encode(rec)
+			return
+		}
+		want := vCanon(reals[0].srv)
+		for j := 1; j < len(reals); j++ {
+			m2, p2 := reals[j].apply(e)
+			if p2 != "" {
+				rec.Det = "replica panicked: " + p2
+				break
+			}
+			if d := vSameOut(msgs, m2); d != "" {
+				rec.Det = fmt.Sprintf("replica %d: %s", j+1, d)
+				break
+			}
+			if d := vStateDiff(want, vCanon(reals[j].srv)); d != "" {
+				rec.Det = fmt.Sprintf("replica %d: %s", j+1, d)
+				break
+			}
+		}
+		enc.Encode(rec)
+		if rec.Det != "" {
+			return // once diverged, every later step differs
+		}
+	}
+}
+
 func vRunHistory(t *testing.T, h int, next func(step int, st map[string]interface{}) *vEntry, k int, snapEvery int, tmp string, w *bufio.Writer) {
 	enc := json.NewEncoder(w)
 	var reals []*vReplica
@@ -848,6 +906,61 @@ func TestVerifIRC(t *testing.T) {
 			wild = 60
 		}
 		vRunHistory(t, h, vGenHistory(rng, length, wild), k, snapEvery, tmp, w)
+	}
+	// determinism beyond the scope of the state predicates (C01 is stated for ALL histories)
+	if vEnvInt("VERIF_IRC_DET", 0) > 0 {
+		// scripted: services rename one of their pseudo-clients onto the nickname of another one, then address
+		// "that nickname" (QUIT / KILL with prefix, WHOIS by a client) - three pairs, in both orders
+		mk := func(pairs [][2]string, useKill bool) func(step int, st map[string]interface{}) *vEntry {
+			var es []*vEntry
+			line := func(sess int64, data string) {
+				es = append(es, &vEntry{T: "line", Sess: sess, Data: data, Conf: true})
+			}
+			es = append(es, &vEntry{T: "config", CfgName: "A", CfgOk: true, Rev: 1, Cfg: map[string]interface{}{"rev": int64(1), "opers": []interface{}{[]interface{}{"op", "pw"}}, "svc": []interface{}{"spw"}, "maxs": int64(0), "maxc": int64(0), "banned": map[string]interface{}{}, "exp": int64(600), "capcfg": true, "caplogin": false}})
+			es = append(es, &vEntry{T: "create", Data: "auth-a"}, &vEntry{T: "create", Data: "auth-b"})
+			line(2, "NICK alice")
+			line(2, "USER ua 0 * :A")
+			line(2, "JOIN #a")
+			line(3, "PASS services=spw")
+			line(3, "SERVER services.example 1 :S")
+			for _, p := range []string{"NickServ", "ChanServ", "Bot", "OperServ", "Global", "bot"} {
+				line(3, fmt.Sprintf("NICK %s 1 1 %s services.example services.example 0 +o :%s", p, strings.ToLower(p[:2]), p))
+				line(3, fmt.Sprintf(":%s JOIN #a", p))
+			}
+			for _, pr := range pairs {
+				line(3, fmt.Sprintf(":services.example SVSNICK %s %s 1", pr[0], pr[1]))
+				line(2, "WHOIS "+pr[1])
+				if useKill {
+					line(3, fmt.Sprintf(":%s KILL alice :x", pr[1]))
+					line(2, "NICK alice")
+				} else {
+					line(3, fmt.Sprintf(":%s QUIT :gone", pr[1]))
+				}
+				line(2, "NAMES #a")
+			}
+			return func(step int, st map[string]interface{}) *vEntry {
+				if step > len(es) {
+					return nil
+				}
+				e := es[step-1]
+				e.Id, e.Ts = int64(step), vTsBase+int64(step)
+				if e.T == "line" {
+					e.Cmid = int64(step)
+				}
+				return e
+			}
+		}
+		for _, useKill := range []bool{false, true} {
+			h++
+			vRunDetHistory(t, h, mk([][2]string{{"NickServ", "ChanServ"}, {"Bot", "OperServ"}, {"Global", "bot"}}, useKill), k+1, tmp, w)
+			h++
+			vRunDetHistory(t, h, mk([][2]string{{"ChanServ", "NickServ"}, {"OperServ", "Bot"}, {"bot", "Global"}}, useKill), k+1, tmp, w)
+		}
+	}
+	for g := 0; g < vEnvInt("VERIF_IRC_DET", 0); g++ {
+		rng := rand.New(rand.NewSource(seed*7000003 + int64(g)))
+		h++
+		vRunDetHistory(t, h, vGenHistoryOpt(rng, length, 0, true), k+1, tmp, w)
 	}
 	json.NewEncoder(w).Encode(&vRecord{K: "end", H: h, Post: map[string]interface{}{}, Out: []vReply{}, Lookup: [][]interface{}{}})
 }
